@@ -12,7 +12,7 @@ import numpy as np
 from harness import common as C
 
 HEADER = """From Coq Require Import List NArith ZArith QArith Bool. Import ListNotations.
-From TLV Require Import Base.Tensor Model.Structure Model.StructureHooi Corr.C08.
+From TLV Require Import Base.Tensor Model.Structure Model.StructureHooi Model.StructureWeights Corr.C08.
 Local Open Scope nat_scope."""
 
 ROUNDINGS = {"round": "RRound", "floor": "RFloor", "ceil": "RCeil"}
@@ -50,6 +50,10 @@ def isqrt_frac(x, digits=40):
     return Fraction(math.isqrt(x.numerator * x.denominator * sc * sc), x.denominator * sc)
 
 
+import functools
+
+
+@functools.lru_cache(maxsize=None)
 def tucker_root(shape, q):
     """root of P x^N + (sum s^2) x - q P on [0, max(q,1)] (what the code asks brentq for), by exact bisection"""
     P = Fraction(int(np.prod(shape))); S = Fraction(sum(s * s for s in shape)); N = len(shape)
@@ -78,6 +82,7 @@ def tt_coeffs(shape, q, constant):
     return Fraction(a), Fraction(b), -Fraction(int(np.prod(shape))) * q
 
 
+@functools.lru_cache(maxsize=None)
 def tt_root(shape, q, constant):
     a, b, c0 = tt_coeffs(shape, q, constant)
     if a == 0:
@@ -146,6 +151,10 @@ def qcpnorm_lit(cid, w, fs, wout, fout):
             f"{qmat(wout)} [{'; '.join(qmat(f) for f in fout)}]), {QOK})")
 
 
+# the exact Gaussian-rational evaluation of a Tucker output costs ~1 s of Coq time: a budget per run (quick tier) keeps the sample small
+Q_BUDGET = {"complex_tucker": 0}
+
+
 def q_cases_for(case, out, cid0):
     """Gallina cases that re-evaluate the canonical-form predicates of one decomposition output exactly; small outputs only"""
     kind, s, kw = case["kind"], case["shape"], case["kw"]
@@ -171,6 +180,10 @@ def q_cases_for(case, out, cid0):
             (case["seed"] % 4 == 0 or str(kw.get("data", "")).startswith("complex") or "svd" in kw):
         X = data_tensor(s, case["seed"], kind=kw.get("data", "normal"))
         core, factors = out
+        if np.iscomplexobj(X):
+            if Q_BUDGET["complex_tucker"] <= 0:
+                return lits
+            Q_BUDGET["complex_tucker"] -= 1
         lits.append(lambda cid: qtucker_lit(cid, X, core, factors, list(range(len(s))), tol_orth=qtol))
     return lits
 
@@ -499,6 +512,120 @@ def extract_hooi_prog(repo):
     return f"(mkHprog {C.boolc(init_proj)} [{'; '.join(body)}])" if body else f"(mkHprog {C.boolc(init_proj)} (@nil hstmt))", body, init_proj
 
 
+
+# ----------------------------------------------------------------------------- the assignments to the CP weights read off the source (ast)
+# Every statement of a CP driver that assigns a weights-valued variable, as a list of wstmt (Model/StructureWeights.v).  FAIL CLOSED: an assignment
+# to such a variable in a form the translator does not know raises Untranslatable (reported as a broken tie).
+def _nf_guarded(tests):
+    for t in tests:
+        parts = t.values if isinstance(t, ast.BoolOp) and isinstance(t.op, ast.And) else [t]
+        for q in parts:
+            if isinstance(q, ast.Name) and q.id == "normalize_factors":
+                return True
+            if isinstance(q, ast.Compare) and isinstance(q.left, ast.Name) and q.left.id == "normalize_factors" and len(q.ops) == 1 \
+                    and isinstance(q.ops[0], ast.Is) and isinstance(q.comparators[0], ast.Constant) and q.comparators[0].value is True:
+                return True
+    return False
+
+
+def _walk_with_tests(node, tests=()):
+    """(statement, enclosing positive if-tests) for every Assign at or below node; the else-branch of an `if` does not inherit its test"""
+    if isinstance(node, ast.Assign):
+        yield node, tests
+    elif isinstance(node, ast.If):
+        for s_ in node.body:
+            yield from _walk_with_tests(s_, tests + (node.test,))
+        for s_ in node.orelse:
+            yield from _walk_with_tests(s_, tests)
+    elif isinstance(node, ast.Lambda) or (isinstance(node, ast.FunctionDef) and tests is None):
+        return
+    else:
+        for child in ast.iter_child_nodes(node):
+            if isinstance(child, (ast.FunctionDef, ast.Lambda)):
+                continue
+            yield from _walk_with_tests(child, tests)
+
+
+def extract_weights_prog(repo, path, func):
+    tree = ast.parse(open(os.path.join(repo, path)).read())
+    fn = next((n for n in tree.body if isinstance(n, ast.FunctionDef) and n.name == func), None)
+    if fn is None:
+        raise Untranslatable(f"{func} not found")
+    wvars = ["weights"]                                  # variable 0 is `weights`
+    stmts = []
+    assigns = list(_walk_with_tests(fn))
+
+    def name_of(e):
+        if isinstance(e, ast.Name):
+            return e.id
+        if isinstance(e, ast.Call) and _call_name(e) == "copy" and len(e.args) == 1 and isinstance(e.args[0], ast.Name):
+            return e.args[0].id
+        return None
+
+    def translate(target, value, tests, lineno):
+        """target: a Name; value: the expression assigned to it (None = an element of an unpacked call result)"""
+        if value is None:
+            raise Untranslatable(f"line {lineno}: `{target}` assigned from an unpacked value")
+        src = name_of(value)
+        if src is not None:
+            if src in wvars:
+                return ("assign", target, ("var", src))
+            return None                                   # not weights-valued
+        if isinstance(value, ast.BinOp) and isinstance(value.op, ast.Add) and isinstance(value.left, ast.Name) and isinstance(value.right, ast.BinOp) \
+                and isinstance(value.right.op, ast.Mult) and isinstance(value.right.left, ast.BinOp) and isinstance(value.right.left.op, ast.Sub) \
+                and isinstance(value.right.left.left, ast.Name) and isinstance(value.right.left.right, ast.Name) \
+                and value.right.left.right.id == value.left.id and value.left.id in wvars and value.right.left.left.id in wvars:
+            return ("assign", target, ("affine", value.left.id, value.right.left.left.id))
+        if _call_name(value) == "ones":
+            return ("assign", target, ("ones",)) if target in wvars else None
+        if target in wvars:
+            raise Untranslatable(f"line {lineno}: `{target}` assigned from an expression that is neither a copy, the extrapolation a + (b - a) * j, nor ones")
+        return None
+
+    changed = True
+    while changed:                                        # the set of weights-valued variables is a fixpoint
+        changed = False
+        stmts = []
+        for st, tests in assigns:
+            tg, val = st.targets[0], st.value
+            pairs = []
+            if isinstance(tg, ast.Tuple):
+                if isinstance(val, ast.Tuple) and len(val.elts) == len(tg.elts):
+                    pairs = [(t, v) for t, v in zip(tg.elts, val.elts) if isinstance(t, ast.Name)]
+                elif any(isinstance(t, ast.Name) and t.id in wvars for t in tg.elts):
+                    cn = _call_name(val)
+                    if cn == "cp_normalize" and isinstance(tg.elts[0], ast.Name) and tg.elts[0].id == "weights":
+                        stmts.append(("normalize", _nf_guarded(tests)))
+                        continue
+                    if cn == "initialize_cp" and isinstance(tg.elts[0], ast.Name) and tg.elts[0].id == "weights":
+                        continue                          # the initial state (weights all ones: C08_init_user_weights_absorbed + predicate)
+                    raise Untranslatable(f"line {st.lineno}: weights unpacked from {cn or 'an expression'}")
+            elif isinstance(tg, ast.Name):
+                pairs = [(tg, val)]
+            elif isinstance(tg, ast.Subscript) and isinstance(tg.value, ast.Name) and tg.value.id in wvars:
+                raise Untranslatable(f"line {st.lineno}: element assignment into `{tg.value.id}`")
+            for t, v in pairs:
+                r = translate(t.id, v, tests, st.lineno)
+                if r is not None:
+                    if t.id not in wvars:
+                        wvars.append(t.id); changed = True
+                    stmts.append(r)
+        # augmented assignments to a weights variable are not translatable
+        for n in ast.walk(fn):
+            if isinstance(n, ast.AugAssign) and isinstance(n.target, ast.Name) and n.target.id in wvars:
+                raise Untranslatable(f"line {n.lineno}: augmented assignment to `{n.target.id}`")
+    ix = {v: k for k, v in enumerate(wvars)}
+
+    def lit(sx):
+        if sx[0] == "normalize":
+            return f"(WNormalize {C.boolc(sx[1])})"
+        _, tgt, e = sx
+        el = f"(WVar {C.nat(ix[e[1]])})" if e[0] == "var" else f"(WAffine {C.nat(ix[e[1]])} {C.nat(ix[e[2]])})" if e[0] == "affine" else "WOnes"
+        return f"(WAssign {C.nat(ix[tgt])} {el})"
+    lits = [lit(x) for x in stmts]
+    return ("[" + "; ".join(lits) + "]") if lits else "(@nil wstmt)", wvars, lits
+
+
 # ----------------------------------------------------------------------------- observing the implementation
 def shp(a):
     return tuple(int(x) for x in np.shape(a))
@@ -538,8 +665,10 @@ def obs_validator(kind, shape, spec, **kw):
     raise KeyError(kind)
 
 
-def run_decomp(kind, shape, spec, seed, **kw):
-    """returns (list of shapes observed, returned object)"""
+def run_decomp(kind, shape, spec, seed, _spy=None, **kw):
+    """returns (list of shapes observed, returned object); _spy: an SvdSpy entered around tensor_train / tensor_ring / tensor_train_matrix"""
+    import contextlib
+    _ctx = _spy if _spy is not None else contextlib.nullcontext()
     import tensorly as tl
     from tensorly import decomposition as D
     from tensorly.decomposition._cmtf_als import coupled_matrix_tensor_3d_factorization
@@ -558,13 +687,16 @@ def run_decomp(kind, shape, spec, seed, **kw):
         return [shp(t.weights)] + [shp(f) for f in t.factors] + [shp(mp.weights)] + [shp(f) for f in mp.factors], out
     X = data_tensor(shape, seed, positive=kw.get("positive", False), kind=kw.get("data", "normal"))
     if kind == "DTt":
-        out = D.tensor_train(X, spec, svd=kw.get("svd", "truncated_svd"))
+        with _ctx:
+            out = D.tensor_train(X, spec, svd=kw.get("svd", "truncated_svd"))
         return [shp(f) for f in out.factors] + [tuple(out.shape), tuple(int(r) for r in out.rank)], out
     if kind == "DTtm":
-        out = D.tensor_train_matrix(X, spec)
+        with _ctx:
+            out = D.tensor_train_matrix(X, spec)
         return [shp(f) for f in out.factors], out
     if kind == "DTr":
-        out = D.tensor_ring(X, spec, mode=kw.get("mode", 0), svd=kw.get("svd", "truncated_svd"))
+        with _ctx:
+            out = D.tensor_ring(X, spec, mode=kw.get("mode", 0), svd=kw.get("svd", "truncated_svd"))
         return [shp(f) for f in out.factors] + [tuple(out.shape), tuple(int(r) for r in out.rank)], out
     if kind == "DTrAls":
         out = D.tensor_ring_als(X, spec, n_iter_max=kw.get("n_iter_max", 1), random_state=seed)
@@ -579,6 +711,69 @@ def run_decomp(kind, shape, spec, seed, **kw):
         out = fn(np.abs(X) + 0.1, spec, n_iter_max=kw.get("n_iter_max", 1), init=kw.get("init", "random"), random_state=seed)
         return [shp(out.weights)] + [shp(f) for f in out.factors], out
     raise KeyError(kind)
+
+
+
+class SvdSpy:
+    """harness-level interposition: svd_interface as bound inside tensorly.decomposition._tt / _tr_svd is replaced for one call by a wrapper that
+    logs (n_row, n_column, n_eigenvecs) and keeps the outputs"""
+
+    def __init__(self, module):
+        self.modname = module
+
+    def __enter__(self):
+        import importlib
+        self.M = importlib.import_module(self.modname)
+        self.orig = self.M.svd_interface
+        self.calls, self.outs = [], []
+        me = self
+
+        def svd(matrix, n_eigenvecs=None, **kw):
+            r = me.orig(matrix, n_eigenvecs=n_eigenvecs, **kw)
+            me.calls.append([int(matrix.shape[0]), int(matrix.shape[1]), int(n_eigenvecs)])
+            me.outs.append(tuple(np.array(x, copy=True) for x in r))
+            return r
+        self.M.svd_interface = svd
+        return self
+
+    def __exit__(self, *a):
+        self.M.svd_interface = self.orig
+        return False
+
+
+def svd_calls_lit(cid, case, c, spy, out):
+    """Gallina case: the SVD calls of one tensor_train / tensor_ring / tensor_train_matrix run and the two observables
+    (every core but the last is the reshaped U of its call; the last core is the reshaped S * V of the last call)"""
+    kind, s, kw = case["kind"], case["shape"], case["kw"]
+    fs = [np.asarray(f) for f in out.factors]
+    n = len(fs)
+    if kind == "DTr":
+        m = kw.get("mode", 0)
+        fs = [fs[(k + m) % n] for k in range(n)]                 # computation order
+    f1 = len(spy.outs) == n - 1
+    if f1:
+        for k, (U, S_, V) in enumerate(spy.outs):
+            f = fs[k]
+            if kind == "DTr" and k == 0:
+                got = np.transpose(f, (1, 0, 2)).reshape(f.shape[1], -1)
+            else:
+                got = f.reshape(-1, f.shape[-1])
+            f1 = f1 and got.shape == U.shape and np.array_equal(got, U)
+    f2 = False
+    if spy.outs:
+        U, S_, V = spy.outs[-1]
+        W = S_.reshape(-1, 1) * V
+        if kind == "DTr" and n == 2:                              # the unfolding after the first step is reshaped (r0, r1, -1) and transposed (1, 2, 0)
+            r0, r1 = fs[0].shape[0], fs[0].shape[2]
+            W = np.transpose(W.reshape(r0, r1, -1), (1, 2, 0))
+        f2 = W.size == fs[-1].size and np.array_equal(W.reshape(fs[-1].shape), fs[-1])
+    elif kind == "DTtm" and n == 1:
+        f1 = f2 = True                                            # a single core: the matrix itself, no SVD
+    op = {"DTt": f"(DTtCalls {C.nat_list(list(s))} {spec_lit(case['spec'])} {C.q(c)})",
+          "DTr": f"(DTrCalls {C.nat_list(list(s))} {spec_lit(case['spec'])} {C.nat(kw.get('mode', 0))})",
+          "DTtm": f"(DTtmCalls {C.nat_list(list(s))} {spec_lit(case['spec'])} {C.q(c)})"}[kind]
+    exp = "(Ok [" + "; ".join(C.nat_list(x) for x in spy.calls + [[int(f1)], [int(f2)]]) + "])"
+    return f"({cid}%N, {op}, {exp})", (f1, f2)
 
 
 # ----------------------------------------------------------------------------- case generation (correspondence)
@@ -627,7 +822,7 @@ def gen_cases(tier, rng):
                 yield dict(kind="VCp", shape=s, spec=f, kw=dict(rounding=rd))
                 yield dict(kind="VTr", shape=s, spec=f, kw=dict(rounding=rd))
                 yield dict(kind="VTucker", shape=s, spec=f, kw=dict(rounding=rd))
-                for const in (False, True):
+                for const in ((False,) if quick and rd != "round" else (False, True)):
                     for ao in ((True,) if quick and rd != "round" else (True, False)):
                         yield dict(kind="VTt", shape=s, spec=f, kw=dict(rounding=rd, constant_rank=const, allow_overparametrization=ao))
         for r in (1, 3):
@@ -636,8 +831,8 @@ def gen_cases(tier, rng):
             yield dict(kind="VTr", shape=s, spec=r, kw=dict(rounding="round"))
             for ao in (True, False):
                 yield dict(kind="VTt", shape=s, spec=r, kw=dict(rounding="round", constant_rank=False, allow_overparametrization=ao))
-        for l in tt_rank_lists(n, rng, 2):
-            for ao in (True, False):
+        for k_l, l in enumerate(tt_rank_lists(n, rng, 2)):
+            for ao in ((True,) if quick and k_l >= 2 else (True, False)):          # (the invalid lists are rejected before the clipping)
                 yield dict(kind="VTt", shape=s, spec=tuple(l), kw=dict(rounding="round", constant_rank=False, allow_overparametrization=ao))
         for l in tr_rank_lists(n, rng, 2):
             yield dict(kind="VTr", shape=s, spec=tuple(l), kw=dict(rounding="round"))
@@ -656,11 +851,13 @@ def gen_cases(tier, rng):
             yield dict(kind="DTt", shape=s, spec=sp, kw={})
         tr_specs = [1, 2] + ["same", 0.5] + [tuple(l) for l in tr_rank_lists(n, rng, 3 if quick else 6)]
         for sp in tr_specs:
-            for mode in range(n):
+            for mode in (range(n) if (n <= 2 or not quick) else sorted(rng.sample(range(n), 2))):      # quick: two start modes per spec for order >= 3
                 yield dict(kind="DTr", shape=s, spec=sp, kw=dict(mode=mode))
         tk_specs = ints + ["same", 0.5] + [tuple(rng.choice([1, 2, 3, 6]) for _ in range(n)) for _ in range(2)]
         for sp in tk_specs:
             for init, nit in (("svd", 0), ("svd", 2), ("random", 1)) + ((("random", 0),) if not quick else ()):
+                if quick and n >= 3 and rng.random() < 0.4:
+                    continue
                 yield dict(kind="DTucker", shape=s, spec=sp, kw=dict(init=init, n_iter_max=nit))
         for data in ("lowrank", "zero", "complex", "complex64"):
             if quick and rng.random() < 0.5:
@@ -690,7 +887,9 @@ def gen_cases(tier, rng):
         if prod(s) <= 200:
             for sp in [1, 2, (1,) + (2,) * (n - 1) + (1,), (2,) + (1,) * (n - 1) + (2,)]:
                 yield dict(kind="DTrAls", shape=s, spec=sp, kw=dict(n_iter_max=1))
-    for s in grid_shapes([2, 4], [1, 2, 3]) if quick else itertools.chain(grid_shapes([2, 4], [1, 2, 3]), grid_shapes([6], [1, 2])):
+    ttm_shapes = list(grid_shapes([2], [1, 2, 3])) + rng.sample(list(grid_shapes([4], [1, 2, 3])), 40) if quick else \
+        itertools.chain(grid_shapes([2, 4], [1, 2, 3]), grid_shapes([6], [1, 2]))
+    for s in ttm_shapes:
         for sp in [1, 2, 4, "same", 0.5] + [tuple(l) for l in tt_rank_lists(len(s) // 2, rng, 2)]:
             yield dict(kind="DTtm", shape=s, spec=sp, kw={})
     yield dict(kind="DTtm", shape=(2, 3, 2), spec=2, kw={})
@@ -728,7 +927,7 @@ def oracle_for(case):
         return Fraction(0), False
     rd = kw.get("rounding", "round")
     if kind in ("VTucker", "DTucker"):
-        c = tucker_root(s, q)
+        c = tucker_root(tuple(s), q)
         return c, any(near_boundary(d * c, rd) for d in s)
     if kind in ("VTt", "DTt", "VTtm", "DTtm"):
         const = kw.get("constant_rank", False)
@@ -742,7 +941,7 @@ def oracle_for(case):
                 return Fraction(0), False
         if len(shape) < 2 or (const and len(shape) < 3):
             return Fraction(0), False
-        c = tt_root(shape, q, const)
+        c = tt_root(tuple(shape), q, const)
         if c is None:
             return Fraction(0), True
         if const:
@@ -1359,14 +1558,18 @@ def run_norm2_case(nc):
         K = nc["shape"][1]
         slices = [r.random_sample((j, K)) + 0.1 for j in nc["shape"][0]]
         spy = NormSpy()
-        with spy:
+        p2spy = P2Spy()
+        if nc.get("nn_modes"):
+            kw["nn_modes"] = nc["nn_modes"]
+        with spy, p2spy:
             st, out = C.call_impl(D.parafac2, slices, nc["rank"], timeout=60, init=nc["init"], random_state=nc["seed"], return_errors=True,
-                                  n_iter_parafac=2, linesearch=False, **kw)
+                                  n_iter_parafac=2, linesearch=bool(nc.get("linesearch")), **kw)
         res = dict(st=st, out=out, errors=None, n_norm=len(spy.outputs), ends_norm=False)
         if st == "ok":
             res["out"], res["errors"] = out
             w, fs, _ = res["out"]
             res["ends_norm"] = spy.is_last_output(w, fs)
+            res["p2spy"] = p2spy
         return res
     if fn == "cmtf":
         X = r.random_sample(tuple(nc["shape"])) + 0.1
@@ -1374,6 +1577,54 @@ def run_norm2_case(nc):
         st, out = C.call_impl(coupled_matrix_tensor_3d_factorization, X, Y, nc["rank"], timeout=60, **kw)
         return dict(st=st, out=out, errors=(out[2] if st == "ok" else None), n_norm=0, ends_norm=False)
     raise KeyError(fn)
+
+
+
+class P2Spy:
+    """harness-level interposition for parafac2: _compute_projections (module attribute of tensorly.decomposition._parafac2) and the line-search
+    step are replaced for one call by wrappers that keep the outputs / whether the jump was accepted"""
+
+    def __enter__(self):
+        import tensorly.decomposition._parafac2 as M
+        self.M, self.o_cp, self.o_ls = M, M._compute_projections, M._BroThesisLineSearch.line_step
+        self.outs, self.accepts = [], []
+        me = self
+
+        def cp(*a, **kw):
+            r = me.o_cp(*a, **kw)
+            me.outs.append([np.array(p_, copy=True) for p_ in r])
+            return r
+
+        def ls(self_, iteration, tensor_slices, factors_last, weights, factors, projections, rec_error):
+            r = me.o_ls(self_, iteration, tensor_slices, factors_last, weights, factors, projections, rec_error)
+            me.accepts.append((int(iteration), r[0] is not factors))        # the jump was accepted: the extrapolated factors are returned
+            return r
+        M._compute_projections, M._BroThesisLineSearch.line_step = cp, ls
+        return self
+
+    def __exit__(self, *a):
+        self.M._compute_projections, self.M._BroThesisLineSearch.line_step = self.o_cp, self.o_ls
+        return False
+
+
+def p2_calls_lit(cid, nc, res, spy):
+    """Gallina case: the _compute_projections calls of one parafac2 run vs Model/StructureHooi.v p2o_trace"""
+    n, tol = nc["n_iter_max"], nc["tol"]
+    dec, sweeps, _ = norm2_decisions(nc, res) if res["errors"] is not None else ([False] * n, n, False)
+    acc = dict(spy.accepts)
+    pairs = [(bool(acc.get(it, False)), bool(dec[it]) if it < len(dec) else False) for it in range(n)]
+    dl = "[" + "; ".join(f"({C.boolc(a)}, {C.boolc(b)})" for a, b in pairs) + "]" if pairs else "(@nil (bool * bool))"
+    P = res["out"][2]
+    idx = 99
+    for k in range(len(spy.outs) - 1, -1, -1):
+        o = spy.outs[k]
+        if len(o) == len(P) and all(np.array_equal(x, y) for x, y in zip(o, P)):
+            idx = len(spy.outs) - 1 - k
+            break
+    ik = {"svd": "InitSvd", "random": "InitRandom"}.get(nc["init"], "InitUser")
+    op = (f"(DP2Calls {ik} {C.boolc(bool(nc.get('nn_modes')))} {C.boolc(nc['normalize_factors'])} {C.boolc(bool(tol))} "
+          f"{C.boolc(bool(nc.get('linesearch')))} {C.nat(n)} {dl})")
+    return f"({cid}%N, {op}, (Ok [[{len(spy.outs)}]%nat; [{idx}]%nat]))", idx
 
 
 def _unit_columns(fs, zero_ok):
@@ -1407,6 +1658,23 @@ def pred_norm2(nc, res):
                 return m, "C08_norm_unit_columns"
         elif not np.all(np.asarray(w) == 1):
             return f"weights {np.asarray(w).tolist()} are not all ones (normalize_factors=False)", "C08_norm_weights_ones"
+        # one orthonormal projection per slice, the evolving factors share one cross product -- on every path through the outer loop
+        # (a user / random initialisation returned without a sweep keeps its own projections)
+        P, B = out[2], fs[1]
+        if len(P) != len(nc["shape"][0]):
+            return f"{len(P)} projections for {len(nc['shape'][0])} slices", "C08_parafac2_shapes"
+        if nc["n_iter_max"] > 0 or nc["init"] in ("svd", "random"):
+            G0 = None
+            for i, p_ in enumerate(P):
+                e = orthonormal_cols(p_)
+                if e > TOL:
+                    return f"PARAFAC2 projection {i} not orthonormal (residual {e:.2e})", "C08_parafac2_orthonormal"
+                Bi = p_ @ B
+                G = Bi.T @ Bi
+                if G0 is None:
+                    G0 = G
+                elif np.max(np.abs(G - G0)) > TOL * max(1.0, float(np.max(np.abs(G0)))):
+                    return f"B_{i}^T B_{i} differs from B_0^T B_0", "C08_parafac2_cross_product"
         return None
     t, mp, _ = out
     if not all(np.all(np.isfinite(x)) for cp in (t, mp) for x in [cp.weights] + list(cp.factors)):
@@ -1430,7 +1698,7 @@ def norm2_cases(tier, rng):
                         for nit in (0, 1, 2, 3, 4, 8):
                             if tol == 1e-4 and nit < 8:
                                 continue
-                            if quick and rng.random() < 0.4:
+                            if quick and rng.random() < 0.55:
                                 continue
                             yield dict(fn=fn, shape=shape, rank=rank, seed=rng.randrange(10 ** 6), init=init, n_iter_max=nit, tol=tol, normalize_factors=nf)
     p2 = [((4, 5, 3), 4, 2), ((3, 3), 3, 2)] if quick else [((4, 5, 3), 4, 2), ((3, 3), 3, 2), ((5, 4, 6, 4), 4, 3), ((2, 3, 4), 2, 1)]
@@ -1439,9 +1707,17 @@ def norm2_cases(tier, rng):
             for nf in (True, False):
                 for tol in (1e10, 0, 1e-6):
                     for nit in (0, 1, 2, 3, 5):
-                        if quick and rng.random() < 0.4:
+                        if quick and rng.random() < 0.55:
                             continue
                         yield dict(fn="parafac2", shape=(js, K), rank=R, seed=rng.randrange(10 ** 6), init=init, n_iter_max=nit, tol=tol, normalize_factors=nf)
+    # the line search (every second sweep from iteration 6 on) and the non-negative variant: the projections over the outer loop
+    for js, K, R in p2[:1] if quick else p2[:2]:
+        for init in ("random", "svd"):
+            for ls_, nn_, nit, tol in ((True, None, 9, 0), (True, None, 7, 1e-12), (True, None, 11, 0), (False, [0], 2, 0), (True, [0, 2], 9, 0), (False, "all", 0, 0)):
+                if quick and rng.random() < 0.35:
+                    continue
+                yield dict(fn="parafac2", shape=(js, K), rank=R, seed=rng.randrange(10 ** 6), init=init, n_iter_max=nit, tol=tol,
+                           normalize_factors=rng.choice([True, False]), linesearch=ls_, nn_modes=nn_)
     for shape in ([(4, 3, 2)] if quick else [(4, 3, 2), (3, 3, 3)]):
         for nf in (True, False):
             for tol in (1e10, 1e-300):
@@ -1673,6 +1949,8 @@ def norm_cases(tier, rng):
                                     continue
                                 if tol == 1e-3 and (nit < 3 or (quick and rng.random() < 0.5)):
                                     continue
+                                if quick and rng.random() < (0.5 if s != shapes[0] else 0.2):
+                                    continue
                                 yield dict(base, fn=fn, shape=s, rank=R, seed=rng.randrange(10 ** 6), init=init, n_iter_max=nit,
                                            tol=tol, normalize_factors=nf, callback=(fn == "parafac" and rng.random() < 0.5))
     # third exit of parafac: the callback asks to stop after sweep cb_stop
@@ -1776,6 +2054,7 @@ def _run(chk, rng):
     t_start, c_start = time.time(), time.process_time()
     chk.notes.append(f"build+Print Assumptions: {t_start - chk.t0:.1f}s wall")
     cases, meta, skipped, timeouts = [], [], 0, 0
+    Q_BUDGET["complex_tucker"] = 10 if tier == "quick" else 120
     for case in gen_cases(tier, rng):
         kind, s, spec, kw = case["kind"], case["shape"], case["spec"], case["kw"]
         case["seed"] = rng.randrange(10 ** 6)
@@ -1787,11 +2066,13 @@ def _run(chk, rng):
         if kind.startswith("D") and zero_rank(case):
             skipped += 1          # a validated rank of 0 is outside the model (the validators themselves are compared on it)
             continue
+        sspy = None
         if kind.startswith("V"):
             st, v = C.call_impl(obs_validator, kind, s, pyspec, timeout=60, **kw)
             shapes, out = (v, None) if st == "ok" else (None, None)
         else:
-            st, v = C.call_impl(run_decomp, kind, s, pyspec, case["seed"], timeout=60, **kw)
+            sspy = SvdSpy("tensorly.decomposition._tr_svd" if kind == "DTr" else "tensorly.decomposition._tt") if kind in ("DTt", "DTr", "DTtm") else None
+            st, v = C.call_impl(run_decomp, kind, s, pyspec, case["seed"], timeout=60, _spy=sspy, **kw)
             shapes, out = v if st == "ok" else (None, None)
         if st != "ok" and str(v) == "timeout":
             timeouts += 1         # loaded machine: never a verdict
@@ -1816,6 +2097,16 @@ def _run(chk, rng):
                     cases.append(mk(qid))
                     meta.append(dict(kind="Q", shape=s, spec=spec, kw=dict(kw, of=kind)))
                     chk.hist("q_checks", kind)
+            if sspy is not None and (tier != "quick" or cid % 3 == 0):
+                # the SVD calls of the TT / TR / TT-matrix loop vs Model/StructureHooi.v tt_calls / tr_calls, and where the cores come from
+                lit, (sf1, sf2) = svd_calls_lit(len(cases), case, c, sspy, out)
+                cases.append(lit)
+                meta.append(dict(kind="SvdCalls", shape=s, spec=spec, kw=dict(kw, of=kind)))
+                chk.hist("svd_call_logs", kind)
+                if not (sf1 and sf2):
+                    chk.finding(ENTRY[kind], dict(kind=kind, shape=list(s), spec=(list(spec) if isinstance(spec, tuple) else spec), kw=kw, seed=case["seed"], svd_calls=True),
+                                ("a core other than the last is not the reshaped U of its SVD call" if not sf1 else "the last core is not the reshaped S * V of the last SVD call"),
+                                "C08_tt_cores_from_svd")
             r = pred_structure(case, shapes, out)
             chk.cov["evaluations"] += 1
             if r:
@@ -1892,7 +2183,8 @@ def _run(chk, rng):
         cx_ = str(tc.get("dtype", "")).startswith("complex")
         no_sweep_user_ = tc["init"] == "user" and (tc["n_iter_max"] == 0 or (tc["fixed"] is not None and len(set(tc["fixed"])) >= len(tc["shape"])))
         if st == "ok" and not tc["mask"] and prod(tc["shape"]) <= (24 if cx_ else 36) and tc["seed"] % (3 if tier == "quick" else 2) == 0 \
-                and not no_sweep_user_ and not (tc["init"] == "random" and tc["n_iter_max"] == 0):      # ~0.3 s of exact arithmetic each
+                and not no_sweep_user_ and not (tc["init"] == "random" and tc["n_iter_max"] == 0) \
+                and (not cx_ or tier != "quick" or tc["seed"] % 9 == 0):                    # quick: about a third of the complex outputs (~1 s of Coq time each)      # ~0.3 s of exact arithmetic each
             qid = len(cases)
             modes_ = list(range(len(tc["shape"]))) if tc["modes"] is None else list(tc["modes"])
             cases.append(qtucker_lit(qid, X, out[0], out[1], modes_, tol_orth=(2e-3 if (tc["svd"] == "symeig_svd" and tol_for(X) > TOL) else 1e-6 if tc["svd"] == "symeig_svd" else None)))
@@ -1922,6 +2214,12 @@ def _run(chk, rng):
             cid = len(cases)
             cases.append(norm2_case_lit(cid, nc, res))
             meta.append(dict(kind="DNorm", shape=nc["shape"], spec=nc["rank"], kw={k_: v for k_, v in nc.items() if k_ not in ("shape", "rank")}))
+        if res["st"] == "ok" and nc["fn"] == "parafac2" and res.get("p2spy") is not None:
+            cid = len(cases)
+            lit, p_idx = p2_calls_lit(cid, nc, res, res["p2spy"])
+            cases.append(lit)
+            meta.append(dict(kind="P2Calls", shape=nc["shape"], spec=nc["rank"], kw={k_: v for k_, v in nc.items() if k_ not in ("shape", "rank")}))
+            chk.hist("parafac2_projection_calls", ("linesearch" if nc.get("linesearch") else "plain") + (":nn" if nc.get("nn_modes") else ""))
         r = pred_norm2(nc, res)
         if r:
             msg, pred = r
@@ -1933,13 +2231,25 @@ def _run(chk, rng):
     chk.cov["skeletons_from_source"] = {k: (list(v) if v else None) for k, v in descs.items()}
     for fn_, d_ in descs.items():
         if d_ is None:
-            skipped += 1
-            chk.notes.append(f"loop skeleton of {fn_} not recognised in the source (skipped)")
+            # fail closed: a driver whose loop the extractor does not recognise is a broken tie, not a skipped case
+            chk.broken.append({"what": f"tie corr:C08 (source of {fn_} -> loop description) broken: the loop skeleton was not recognised", "detail": fn_})
             continue
         cid = len(cases)
         cases.append(desc_lit(cid, fn_, d_))
         meta.append(dict(kind="Desc", shape=(), spec=fn_, kw=dict(fn=fn_, desc=str(d_))))
         chk.count(key=("skeleton", fn_, d_))
+    # ---- the assignments to the CP weights translated from the source of the three CP drivers
+    chk.cov["weights_programs_from_source"] = {}
+    for fn_, path_ in DRIVER_SOURCES[:3]:
+        try:
+            wl, wvars, wlits = extract_weights_prog(C.REPO, path_, fn_)
+            chk.cov["weights_programs_from_source"][fn_] = {"variables": wvars, "program": wlits}
+            cid = len(cases)
+            cases.append(f"({cid}%N, (DWprog {wl}), {QOK})")
+            meta.append(dict(kind="Wprog", shape=(), spec=fn_, kw=dict(fn=fn_, program=wl)))
+            chk.count(key=("weights_program", fn_, wl))
+        except Untranslatable as e:
+            chk.broken.append({"what": f"tie corr:C08 (source of {fn_} -> weights program) broken: an assignment to the weights could not be translated", "detail": str(e)})
     # ---- the loop of partial_tucker translated from the source
     try:
         plit, pbody, pinit = extract_hooi_prog(C.REPO)
@@ -1990,8 +2300,11 @@ def _run(chk, rng):
         m = meta[i]
         what = ("corr:C08 (Model/Structure.v cp_run vs control flow of the CP drivers)" if m["kind"] == "DNorm" else
                 "corr:C08 (Model/Structure.v partial_tucker / tucker_fixed vs the implementation's shapes)" if m["kind"] == "DTuckerX" else
+                "corr:C08 (Model/StructureHooi.v tt_calls / tr_calls vs the svd_interface calls of tensor_train / tensor_ring / tensor_train_matrix)" if m["kind"] == "SvdCalls" else
                 "corr:C08 (Model/StructureHooi.v hooi_run vs the call log of svd_interface / multi_mode_dot in tucker / partial_tucker)" if m["kind"] == "DHooi" else
                 "corr:C08 (loop skeleton read off the source does not satisfy desc_ok: some exit returns un-normalised factors)" if m["kind"] == "Desc" else
+                "corr:C08 (Model/StructureHooi.v p2o_run vs the _compute_projections calls of parafac2: number of calls / which call's output is returned)" if m["kind"] == "P2Calls" else
+                "corr:C08 (the assignments to the CP weights translated from the source do not satisfy wprog_ok: a cp_normalize outside `if normalize_factors`)" if m["kind"] == "Wprog" else
                 "corr:C08 (the loop of partial_tucker translated from the source does not satisfy prog_ok: some exit returns a core that is not the projection onto the returned factors)" if m["kind"] == "Hprog" else
                 "corr:C08 (Model/StructureQ.v: orthonormality / core = projection / cp_normalize evaluated exactly on the outputs)" if m["kind"] == "Q" else
                 "corr:C08 (Model/Structure.v vs rank validators / decomposition shape flow)")
@@ -2077,10 +2390,14 @@ def replay(payload):
         case = dict(kind=inp["kind"], shape=tuple(tuple(x) if isinstance(x, list) else x for x in inp["shape"]),
                     spec=tuple(spec) if isinstance(spec, list) else spec, kw=inp["kw"], seed=inp["seed"])
         pyspec = list(spec) if isinstance(spec, (list, tuple)) else spec
-        st, v = C.call_impl(run_decomp, case["kind"], case["shape"], pyspec, case["seed"], timeout=120, **case["kw"])
+        sspy = SvdSpy("tensorly.decomposition._tr_svd" if case["kind"] == "DTr" else "tensorly.decomposition._tt") if inp.get("svd_calls") else None
+        st, v = C.call_impl(run_decomp, case["kind"], case["shape"], pyspec, case["seed"], timeout=120, _spy=sspy, **case["kw"])
         if st != "ok":
             print("replay: raised", v)
             return 1
         r = pred_structure(case, v[0], v[1])
+        if r is None and sspy is not None:
+            f1, f2 = svd_calls_lit(0, case, Fraction(0), sspy, v[1])[1]
+            r = None if (f1 and f2) else ("a core is not the reshaped output of its SVD call", "C08_tt_cores_from_svd")
     print("replay:", inp, "->", r[0] if r else "holds")
     return 1 if r else 0
